@@ -36,7 +36,7 @@ ACTIONS = ("PoseLaw", "PoseGrid", "PoseBurn", "AppendEvent", "Deliver", "Prune",
 def cfg_text(invs=ALL_INVS, emit: str = "", **kw) -> str:
     d = dict(Mode='"steps"', Horizon=12, StepLens="{1, 2, 3, 4, 6}", MaxSteps=4, Ks="{1}", MaxInterior=0,
              MaxCalls=0, Laws="LawsQuick", Kinds="KindsBurn", BurnChoice='"closed"', WithNoBurn="TRUE",
-             EndNeedsLanding="FALSE", EndMasksStart="FALSE", EmitTag=f'"{emit}"')
+             FirstStart=1, OnlyFirstStart="FALSE", EndNeedsLanding="FALSE", EndMasksStart="FALSE", EmitTag=f'"{emit}"')
     d.update(kw)
     lines = ["SPECIFICATION Spec", "CONSTANTS"]
     for k, v in d.items():
@@ -162,6 +162,15 @@ class Embed:
         if kind == "spiral":
             return ScheduledFiniteManeuver(ScenarioTime(ts), ScenarioTime(te), partial(spiralThrust, magnitude=acc), agent_id)
         raise ValueError(kind)
+
+
+def flush_events() -> None:
+    """Every thrust callback pushes a record on the simulator's EventStack (a key-value actor); the Scenario flushes it at
+    every step.  Replays that call the dynamics directly must do the same, otherwise the stack - and the stand-in's
+    object store, which keeps a pickle of every transaction result - grows quadratically."""
+    from resonaate.dynamics.integration_events.event_stack import EventStack
+    EventStack.logAndFlushEvents()
+    sched._OBJECTS.clear()
 
 
 def close(got: float, want: float, tol: float = 1e-9) -> bool:
